@@ -48,6 +48,7 @@ const (
 	KAddr  // tlb.MsgAddress (hand-written codec, modelled as TAddr)
 	KEnum  // string-valued Go type with a hand-written tag codec (modelled as a TSum of empty structs)
 	KVoid  // constructor of a union whose payload has no model: never generated, never claimed (listed)
+	KCellSlice // tlb.VmCellSlice: ^Cell st_bits:(## 10) end_bits:(## 10) st_ref:(#<= 4) end_ref:(#<= 4)
 	KDictE // tlb.HashmapE[K,V]: Maybe ^(Hashmap n V); the dictionary body is property C05 (opaque cell here)
 )
 
@@ -381,6 +382,8 @@ func (d *Desc) Sx() sx.V {
 		return a("addr")
 	case KVoid:
 		return a("sum")
+	case KCellSlice:
+		return a("struct", a("cellref"), a("uint", sx.Nat(10)), a("uint", sx.Nat(10)), a("uint", sx.Nat(3)), a("uint", sx.Nat(3)))
 	case KEnum:
 		var as []sx.V
 		for _, al := range d.Alts {
@@ -446,6 +449,8 @@ func (d *Desc) Coq() string {
 		return "TAddr"
 	case KVoid:
 		return "TSum []"
+	case KCellSlice:
+		return "TStruct [TCellRef; TUint 10; TUint 10; TUint 3; TUint 3]"
 	case KEnum:
 		var as []string
 		for _, al := range d.Alts {
@@ -645,6 +650,8 @@ func (d *Desc) Rand(r *prng.R, dst reflect.Value, depth int) sx.V {
 		return tag("z", sx.BigZ(v))
 	case KAddr:
 		return randAddr(r, dst)
+	case KCellSlice:
+		return randCellSlice(r, dst)
 	case KEnum:
 		k := r.Intn(len(d.Alts))
 		dst.SetString(d.Alts[k].Name)
@@ -788,6 +795,8 @@ func (d *Desc) Render(v reflect.Value) sx.V {
 	switch d.K {
 	case KAddr:
 		return renderAddr(v)
+	case KCellSlice:
+		return renderCellSlice(v)
 	case KEnum:
 		for k, al := range d.Alts {
 			if al.Name == v.String() {
